@@ -125,6 +125,57 @@ func TestVerif_C13_Wrappers(t *testing.T) {
 		rec.Tally("id-shape:" + idShape)
 		d, denc, _ := sm2gen.PrivKey(t, "d")
 		px, py, _ := sm2gen.Pub(d)
+		// The wrappers hash the PUBLIC KEY THEY ARE GIVEN into ZA. One case in five gives them a point whose Y coordinate is
+		// word-structured — next to 2^255 (where Y and p-Y have the same top bit), next to 0 or p, or drawn limb by limb — found by
+		// solving the curve equation for x (sm2ref.LiftY). The private key stays the drawn one: what is compared is
+		// Sign(id, P, d, M) against SignHashed(d, SM3(ZA(id, P) || M)), which does not need the pair to match.
+		pubcls := "derived"
+		if gen.Uniform(t, "structured-pub", 0, 4) == 0 {
+			var y0 *big.Int
+			ycls := gen.Pick(t, "ycls", "below-2^255", "below-2^255", "above-p-2^255", "near-0", "near-p", "limbs")
+			switch ycls {
+			case "below-2^255":
+				y0 = new(big.Int).Sub(new(big.Int).Lsh(big.NewInt(1), 255), big.NewInt(int64(gen.Uniform(t, "yoff", 1, 100000))))
+			case "above-p-2^255":
+				y0 = new(big.Int).Sub(gen.P, new(big.Int).Lsh(big.NewInt(1), 255))
+				y0.Add(y0, big.NewInt(int64(gen.Uniform(t, "yoff", 1, 100000))))
+			case "near-0":
+				y0 = big.NewInt(int64(gen.Uniform(t, "yoff", 1, 100000)))
+			case "near-p":
+				y0 = new(big.Int).Sub(gen.P, big.NewInt(int64(gen.Uniform(t, "yoff", 1, 100000))))
+			default:
+				y0, _ = gen.Limbs(t, "ylimbs")
+				y0.Mod(y0, gen.P)
+			}
+			for i := 0; i < 60; i++ {
+				if pt, ok := sm2ref.LiftY(y0); ok {
+					px, py, pubcls = gen.Pad32(pt.X), gen.Pad32(pt.Y), "structured-Y:"+ycls
+					break
+				}
+				y0.Add(y0, big.NewInt(1)).Mod(y0, gen.P)
+			}
+		}
+		rec.Tally("public-key:" + pubcls)
+		// ... and the identity used by the PREVIOUS call may be a near relative of this one: the same id with the negated key (same X),
+		// the same key with another id, another key with the same id. Whatever a wrapper remembers about "the last signer" must
+		// tell these apart.
+		if prior := gen.Pick(t, "previous-identity", "none", "none", "negated-key", "negated-key", "other-id", "other-key"); prior != "none" {
+			pid, ppx, ppy := id, px, py
+			switch prior {
+			case "negated-key":
+				ppy = gen.Pad32(new(big.Int).Sub(gen.P, new(big.Int).SetBytes(py)))
+			case "other-id":
+				pid = append(append([]byte(nil), id...), 'x')
+			case "other-key":
+				ppx, ppy, _ = sm2gen.Pub(new(big.Int).Add(new(big.Int).Mod(new(big.Int).Add(d, big.NewInt(99)), sm2gen.NM2), big.NewInt(1)))
+			}
+			if len(pid) < 8192 {
+				ps := gen.RandBytes(r, 96)
+				ps[0] &= 0x7f
+				vt.Catch(func() { sm2.Sign(pid, ppx, ppy, bytes.NewReader(ps), denc, msg) })
+			}
+			rec.Tally("previous-identity:" + prior)
+		}
 		stream := gen.RandBytes(r, 128)
 		stream[0] &= 0x7f
 		m := (32 + len(msg)) % 64
@@ -218,8 +269,12 @@ func TestVerif_C13_Wrappers(t *testing.T) {
 			vt.Fail(t, rec, "C13:wrappers:panic", "verification panicked: %v", p)
 			return
 		}
-		if vz != vh || vf != vh || vh != (mut == "none") {
-			vt.Fail(t, rec, "C13:wrappers:verify", "mutation %s: VerifyHashed(e_ref)=%v VerifyZa=%v Verify=%v (want all %v)\nid=%x msg=%x", mut, vh, vz, vf, mut == "none", id2, msg2)
+		wantV := mut == "none"
+		if pubcls != "derived" {
+			wantV = sm2ref.Verify(px, py, ev, r0, s0) // the given point is not the signer's key: the reference decides (false)
+		}
+		if vz != vh || vf != vh || vh != wantV {
+			vt.Fail(t, rec, "C13:wrappers:verify", "mutation %s, public key %s: VerifyHashed(e_ref)=%v VerifyZa=%v Verify=%v (want all %v)\nid=%x msg=%x", mut, pubcls, vh, vz, vf, wantV, id2, msg2)
 		}
 	})
 }
